@@ -336,7 +336,8 @@ class Builder:
                 self.container_leaves = _signed_leaves(expr)
                 sub = self.universe(depth - 1, scale * 0.8)
                 self.container_leaves = None
-            fill = {'u': sub, 'tr': self.transform_ref(scale)}
+            fill = {'u': sub, 'tr': None if self.opts.get('no_fill_tr')
+                    else self.transform_ref(scale)}
             if d(st.integers(0, 3)) == 0:
                 trcl = self.transform_ref(scale, allow_none=False)
                 self.labels.add('container-trcl')
